@@ -94,6 +94,35 @@ Theorem c01_roundtrip :
                       (Ok (map Ev (seq 0 nobs))).
 Proof. exact roundtrip. Qed.
 
+(* the same with the coefficient list literally PRODUCED by the C05 model of generate_cutting_experiments (its shared
+   second half `core`, reached by both call forms: c05_generate_is_core) on the exact weights *)
+Theorem c01_roundtrip_generated :
+  forall gh gsx env (C : list (list Q)) table og (W : sdict) out (cq : list (Q * wkind))
+         (L : list (list nat)) (nobs : nat) (term : jkey -> nat -> Q) (Ev : nat -> Q) (E : nat -> jkey -> nat -> Q),
+  core gh gsx env C table og W = Ok (out, cq) ->
+  (forall k, k < nobs ->
+     (Ev k == sumQ (map (fun ids => (coeff_prod C ids * term ids k)%Q) (all_maps (map (@length Q) C))))%Q) ->
+  (forall ids k, In ids (all_maps (map (@length Q) C)) -> k < nobs -> (term ids k == part_prod L E ids k)%Q) ->
+  (forall v, In v C -> ~ (kappa_of v == 0)%Q) ->
+  exact_weights C W ->
+  forall pyint0 den (pds : list (Reconstruct.part * Reconstruct.pdata)),
+  length pds = length L ->
+  (forall pd, In pd pds ->
+     Reconstruct.data_len (snd pd) = length (map fst cq) * length (Reconstruct.pgroups (fst pd))) ->
+  (forall pd, In pd pds -> length (Reconstruct.plookup (fst pd)) = nobs /\ Reconstruct.locs_ok (fst pd)) ->
+  (forall pd key, In pd pds -> In key (Reconstruct.keys_of (snd pd)) ->
+     Reconstruct.outcome_to_int pyint0 key = Some (den key)) ->
+  (forall li pd sfx z s k,
+     nth_error pds li = Some pd -> nth_error L li = Some sfx ->
+     nth_error (sort_samples W) z = Some s -> k < nobs ->
+     (Reconstruct.E den pd z k == E li (project_ids sfx (s_ids s)) k)%Q) ->
+  Reconstruct.res_Qeq (Reconstruct.reconstruct_parts pyint0 nobs (map fst cq) pds)
+                      (Ok (map Ev (seq 0 nobs))).
+Proof.
+  intros gh gsx env C table og W out cq L nobs term Ev E H P1 P23 Hk HW.
+  exact (roundtrip C L nobs term Ev E P1 P23 W cq Hk HW (core_coeffs _ _ _ _ _ _ _ _ _ H)).
+Qed.
+
 (* the two steps separately: the postulates turn the uncut value into the cut value ... *)
 Theorem c01_expansion :
   forall C L nobs term Ev E,
@@ -428,6 +457,7 @@ Print Assumptions c01_support_sum.
 Print Assumptions c01_multilinear.
 Print Assumptions c01_c05_vocabulary.
 Print Assumptions c01_roundtrip.
+Print Assumptions c01_roundtrip_generated.
 Print Assumptions c01_expansion.
 Print Assumptions c01_listed_samples.
 Print Assumptions c01_roundtrip_public.
